@@ -17,7 +17,7 @@ PROPERTY = "C13"
 
 STYLES = ["send", "method", "events-item", "allowed-item", "bound-to-object", "mixin-method", "send-boundevent", "send-foreign-boundevent"]
 STATES = ["a", "b", "c", "d"]
-EVENTS = ["go", "go_back", "hop", "finish", "skip"]
+EVENTS = ["go", "go_back", "hop", "finish", "skip", "leap"]
 
 
 def build_class(name="C13M"):
@@ -35,6 +35,10 @@ def build_class(name="C13M"):
         go_back = b.to(a) | c.to(a, cond="g1")
         hop = a.to.itself(internal=True) | c.to(b)
         finish = c.to(d) | b.to(d, cond="g2")
+        c.to(c, event=["hop", "hop leap"], internal=True)  # an id repeated inside one event list, followed by a new id
+
+        def __len__(self):
+            return 0  # a machine class that is a (currently empty) container: falsy, and still a machine
         a.to(c, event="go skip")  # a multi-event transition whose first id is already used by earlier transitions of a
 
         def g1(self):
